@@ -24,6 +24,11 @@ class DescriptorElement:
                 return True
         return False
 
+    def reset_errors(self) -> None:
+        self.elt.reset()
+        for child in self.children:
+            child.reset_errors()
+
     def get_errors(self) -> list[ValidationError]:
         result = self.elt.errors
         for child in self.children:
